@@ -91,7 +91,7 @@ REGISTRY = {
     },
     "C07": {
         "rules": [circuit.rule_cache_check, circuit.rule_writers_invalidate, circuit.rule_copy_complete, circuit.rule_gate_registry,
-                  circuit.rule_cache_key_siblings, circuit.rule_perm_tracking, record.rule_clients],
+                  circuit.rule_cache_key_siblings, circuit.rule_perm_tracking, circuit.rule_ctor_binding, record.rule_clients],
         "explanation": (
             "static: decides (narrowly) the cache-staleness discipline of the circuit simulators (every memo access is preceded by "
             "the gate-count check; every parameter / state rewrite that keeps the gate count clears the memos), completeness of "
@@ -138,7 +138,7 @@ REGISTRY = {
         "assumptions": COMMON_ASSUMPTIONS,
     },
     "C17": {
-        "rules": [exponent.rule_linop_dtype, linalg.rule_backend_use_or_reject, linalg.rule_dense_table, linalg.rule_perm_provenance, linalg.rule_none_vs_zero, linalg.rule_return_arity],
+        "rules": [exponent.rule_linop_dtype, linalg.rule_backend_use_or_reject, linalg.rule_dense_table, linalg.rule_perm_provenance, linalg.rule_none_vs_zero, linalg.rule_return_arity, linalg.rule_adjoint_distinct],
         "explanation": (
             "static (registry evaluation + use-or-reject): decides that every registered eigen / singular-value backend accepts "
             "every setting its dispatcher builds and reads each selection-bearing option it accepts, that the dispatcher builds "
@@ -150,7 +150,7 @@ REGISTRY = {
     },
     "C14": {
         "rules": [
-            bp.rule_bp_exponent, bp.rule_accumulator_units, bp.rule_bp_normalizers, bp.rule_factor_orientation, bp.rule_damping_order, bp.rule_dual_refresh,
+            bp.rule_bp_exponent, bp.rule_accumulator_units, bp.rule_bp_normalizers, bp.rule_factor_orientation, bp.rule_damping_order, bp.rule_dual_refresh, bp.rule_bp_cache_invalidate,
             P(registries.rule_mode_total, specs=[
                 ("quimb.tensor.belief_propagation.bp_common", "BeliefPropagationCommon.normalize.setter", "normalize"),
                 ("quimb.tensor.belief_propagation.bp_common", "BeliefPropagationCommon.distance.setter", "distance"),
@@ -192,6 +192,7 @@ REGISTRY = {
     "C09": {
         "rules": [
             registries.rule_compress_registry_1d, registries.rule_full_span, registries.rule_centre_shift, exponent.rule_sum_exponents, memo.rule_density_orientation,
+            P(iso.rule_iso_claim, only_modules=("quimb.tensor.tensor_core",), rule="iso-claim[arithmetic]"),
             P(dmrg.rule_sweep_memory, sites=[("quimb.tensor.tn1d.compress", "tensor_network_1d_compress_fit", None, "prepare")], rule="sweep-memory[fit]"),
             P(optflow.rule_option_delivery, opts=("max_bond", "cutoff"), modules=("quimb.tensor.tn1d",), rule="cap-delivery[1d]", floor=40),
             P(registries.rule_mode_total, specs=[
@@ -212,7 +213,7 @@ REGISTRY = {
     },
     "C12": {
         "rules": [
-            registries.rule_ag_compress_registry, exponent.rule_view_accrual, capguard.rule_cap_guard, envs.rule_private_boundary,
+            registries.rule_ag_compress_registry, exponent.rule_view_accrual, capguard.rule_cap_guard, capguard.rule_pair_predicate, capguard.rule_opts_delivered, envs.rule_private_boundary,
             P(optflow.rule_option_delivery, opts=("max_bond", "cutoff"),
               modules=("quimb.tensor.tn2d", "quimb.tensor.tn3d", "quimb.tensor.tnag.compress", "quimb.tensor.tensor_core"),
               rule="cap-delivery[boundary]", floor=80),
